@@ -827,22 +827,24 @@ lyd_unlink_check(struct lyd_node *node)
  * The nodes will remain sorted according to the schema.
  *
  * @param[in] first_dst First sibling, destination.
+ * @param[in,out] first_src First sibling, source, updated when it is moved.
  * @param[in] node Starting node, all following nodes with the same schema will be moved.
  * @param[out] next_p Next node that has a different schema or NULL.
  * @return LY_ERR value.
  */
 static LY_ERR
-lyd_move_nodes_ordby_schema(struct lyd_node **first_dst, struct lyd_node *node, struct lyd_node **next_p)
+lyd_move_nodes_ordby_schema(struct lyd_node **first_dst, struct lyd_node **first_src, struct lyd_node *node,
+        struct lyd_node **next_p)
 {
-    struct lyd_node *second, *anchor, *iter, *next, *dst, *src, *first_src = NULL;
+    struct lyd_node *second, *anchor, *iter, *next, *dst, *src;
 
-    assert(first_dst && *first_dst && !(*first_dst)->prev->next && node && next_p);
+    assert(first_dst && *first_dst && !(*first_dst)->prev->next && first_src && node && next_p);
 
     if ((anchor = lyd_insert_node_find_anchor(*first_dst, node))) {
         /* move the first node to the correct place according to the schema */
         LY_CHECK_RET(lyd_unlink_check(node));
         second = node->next;
-        lyd_unlink_ignore_lyds(&first_src, node);
+        lyd_unlink_ignore_lyds(first_src, node);
         lyd_insert_before_node(anchor, node);
         lyd_insert_hash(node);
         *first_dst = *first_dst != anchor ? *first_dst : node;
@@ -865,7 +867,7 @@ lyd_move_nodes_ordby_schema(struct lyd_node **first_dst, struct lyd_node *node, 
         if (iter->schema != src->schema) {
             break;
         }
-        lyd_unlink_ignore_lyds(&first_src, iter);
+        lyd_unlink_ignore_lyds(first_src, iter);
         lyd_insert_after_node(first_dst, dst, iter);
         lyd_insert_hash(iter);
         dst = iter;
@@ -940,10 +942,10 @@ lyd_move_nodes_by_schema(struct lyd_node **first_dst, struct lyd_node *first_src
                  * but insert the node anyway although the nodes will not be sorted.
                  */
                 LOGWRN(LYD_CTX(first_src), "Data in \"%s\" are not sorted.", leader->schema->name);
-                LY_CHECK_RET(lyd_move_nodes_ordby_schema(first_dst, next, &next));
+                LY_CHECK_RET(lyd_move_nodes_ordby_schema(first_dst, &first_src, next, &next));
             }
         } else {
-            LY_CHECK_RET(lyd_move_nodes_ordby_schema(first_dst, iter, &next));
+            LY_CHECK_RET(lyd_move_nodes_ordby_schema(first_dst, &first_src, iter, &next));
         }
     }
 
